@@ -61,6 +61,7 @@ func verifyFunction(prog *Program, specs *Specs, key string) (res *FuncResult) {
 		for i, c := range r.conds {
 			if r.condMark[i] <= o.mark {
 				o.splitConds = append(o.splitConds, c)
+				o.splitPos = append(o.splitPos, r.condPos[i])
 			}
 		}
 		if t, ok := r.knownExcl[o.Name]; ok {
@@ -122,6 +123,38 @@ func (r *Run) verifyTop() {
 				bc, _ := r.boxComp(pt.Elem())
 				r.localBoxes = append(r.localBoxes, localBox{bc, v.T})
 			}
+		}
+	}
+	// captured variables are distinct variables of the enclosing function: their boxes are pairwise different
+	{
+		var ptrs []Term
+		for _, fv := range fn.FreeVars {
+			if v := fr.free[fv]; v.Kind == VTerm {
+				ptrs = append(ptrs, v.T)
+			}
+		}
+		if len(ptrs) > 1 {
+			var b strings.Builder
+			b.WriteString("(distinct")
+			for _, p := range ptrs {
+				b.WriteByte(' ')
+				b.WriteString(p.S)
+			}
+			b.WriteString(")")
+			r.ctx.Assert(Term{b.String(), SBool})
+		}
+	}
+	// the storage of a captured local is not a buffer handle handed out by an allocator
+	if srt, ok := r.specs.Ghosts["liveP"]; ok {
+		r.regComp("ghost.liveP", srt)
+		lp := r.heapGet(st, "ghost.liveP")
+		for _, fv := range fn.FreeVars {
+			if v := fr.free[fv]; v.Kind == VTerm {
+				r.ctx.Assert(Not(Select(lp, v.T)))
+			}
+		}
+		if len(fn.FreeVars) > 0 {
+			r.trusted["captured local variables of the enclosing function are not allocator handles (their boxes differ from every live buffer handle)"] = true
 		}
 	}
 	// captured variables are visible to contracts by name: entry value in requires and old(), final value in ensures
@@ -541,7 +574,12 @@ func discharge(o *Obligation, timeoutS int) {
 	t := timeoutS
 	if o.Cover {
 		// vacuity check: a quick look for a model; "unknown" is not a refutation of reachability
-		res := solveWith("z3-new", o.Name, q, 2)
+		sq, _, _ := o.ctx.SlicedQuery(o.mark, o.hyps, o.goal)
+		res := solveWith("z3-new", o.Name, sq, 1)
+		if res.Status == "unsat" {
+			// the slice dropped assumptions: only the full query can say "unreachable"
+			res = solveWith("z3-new", o.Name, q, 2)
+		}
 		o.Result = &res
 		return
 	}
@@ -677,3 +715,36 @@ func (r *Run) ifaceParamNames(isp *FuncSpec, key string) []string {
 }
 
 var dumpSliceDir string
+
+// explain re-runs a refuted obligation and reports which way each branch of the function went in the model.
+func explain(o *Obligation, timeoutS int) string {
+	if len(o.splitConds) == 0 {
+		return ""
+	}
+	var names []string
+	for _, c := range o.splitConds {
+		names = append(names, c.S)
+	}
+	q := o.ctx.Query(o.mark, o.hyps, o.goal) + "(get-value (" + strings.Join(names, " ") + "))\n"
+	res := solveWith("z3", o.Name+".explain", q, timeoutS)
+	if res.Status != "sat" {
+		res = solveWith("z3-new", o.Name+".explain", q, timeoutS)
+	}
+	if res.Status != "sat" {
+		return "(no model: " + res.Status + ")"
+	}
+	raw := res.Raw
+	var b strings.Builder
+	for i, c := range o.splitConds {
+		k := strings.Index(raw, "("+c.S+" ")
+		val := "?"
+		if k >= 0 {
+			rest := raw[k+len(c.S)+2:]
+			if e := strings.IndexAny(rest, ")\n"); e >= 0 {
+				val = strings.TrimSpace(rest[:e])
+			}
+		}
+		fmt.Fprintf(&b, "    %-5s %s\n", val, o.splitPos[i])
+	}
+	return b.String()
+}
